@@ -118,10 +118,22 @@ pub(crate) mod verif_sign {
 
     /// Verifier: verify(sig) is exactly the Ed25519 verdict on (key, concatenation of updates, sig).
     pub fn verifier_body<const C: usize, const T: usize>(chunks: [usize; C], sig_len: usize) {
+        verifier_body_w::<C, T>(chunks, sig_len, false)
+    }
+
+    /// weak = true: the key is the identity point and the signature (R = identity, S = 0), which plain
+    /// RFC 8032 verification accepts for every message (a stricter verifier does not); the message
+    /// stays symbolic.
+    pub fn verifier_body_w<const C: usize, const T: usize>(chunks: [usize; C], sig_len: usize, weak: bool) {
         dalek::model_reset();
-        let key: [u8; 32] = vany_bytes::<32>();
+        let mut key: [u8; 32] = vany_bytes::<32>();
         let data: [u8; T] = vany_bytes::<T>();
-        let sig: [u8; 64] = vany_bytes::<64>();
+        let mut sig: [u8; 64] = vany_bytes::<64>();
+        if weak {
+            key = dalek::IDENTITY_POINT;
+            sig = [0u8; 64];
+            sig[0] = 1;
+        }
         // key parsing may reject (not a curve point): the verifier then panics, which for the
         // callers is a rejection; the claim below is about keys that parse
         dalek::model_all_points_valid(true);
@@ -142,6 +154,7 @@ pub(crate) mod verif_sign {
         vassert!(dalek::eq64(&rec.sig, &sig), "VERIF:C13:verified-signature-is-the-one-given");
         vcover!(verdict, "COVER:accepts");
         vcover!(!verdict, "COVER:rejects");
+        vcover!(weak, "COVER:weak-key-triple-verified");
         vassert!(verdict == rec.ok, "VERIF:C13:verify-returns-the-ed25519-verdict");
         core::mem::forget(v);
     }
@@ -163,4 +176,12 @@ pub(crate) mod verif_sign {
     c13_verifier!(c13_verifier_empty, 1, 1, [0], 6);
     //@ harness c13_verifier_prefix_payload tier=quick shape="message in chunks 32+100 B (response-sized)"
     c13_verifier!(c13_verifier_prefix_payload, 2, 132, [32, 100], 6);
+    //@ family c13_verifier_weak props=C13 mode=strict mod=sign::verif_sign must_cover=COVER:weak-key-triple-verified
+    //@ harness c13_verifier_weak_key tier=quick shape="key = identity point, signature (R = identity, S = 0), message 4+0+1 symbolic bytes: accepted by plain Ed25519 verification for every message"
+    #[cfg_attr(kani, kani::proof)]
+    #[cfg_attr(kani, kani::unwind(6))]
+    #[cfg_attr(not(kani), test)]
+    fn c13_verifier_weak_key() {
+        verifier_body_w::<3, 5>([4, 0, 1], 64, true);
+    }
 }
